@@ -259,12 +259,12 @@ def installed(symbolic=True, *, step_limit=None, flows_of=None):
     STEPS.n = 0
     STEPS.limit = step_limit
     try:
-        setg(dns.DNSMessage, "HEADER", BStruct("!HHHHHH"))
-        setg(dns.Question, "HEADER", BStruct("!HH"))
-        setg(dns.ResourceRecord, "HEADER", BStruct("!HHIH"))
-        setg(domain_names, "_LABEL_SIZE", _StepStruct("!B"))
-        setg(domain_names, "_POINTER_OFFSET", BStruct("!H"))
-        setg(dns_layer, "_LENGTH_LABEL", BStruct("!H"))
+        setg(dns.DNSMessage, "HEADER", BStruct(dns.DNSMessage.HEADER.format))  # formats are read from the code under test
+        setg(dns.Question, "HEADER", BStruct(dns.Question.HEADER.format))
+        setg(dns.ResourceRecord, "HEADER", BStruct(dns.ResourceRecord.HEADER.format))
+        setg(domain_names, "_LABEL_SIZE", _StepStruct(domain_names._LABEL_SIZE.format))
+        setg(domain_names, "_POINTER_OFFSET", BStruct(domain_names._POINTER_OFFSET.format))
+        setg(dns_layer, "_LENGTH_LABEL", BStruct(dns_layer._LENGTH_LABEL.format))
         for m in (dns, domain_names, https_records, dns_layer):
             setg(m, "bytearray", sbytearray)
             setg(m, "bytes", sbytes)
